@@ -50,15 +50,22 @@ BasisCell(M, N, P, bg) == /\ ~job.active /\ bg # "hom"
                           /\ job' = [active |-> TRUE, kind |-> "basis", M |-> M, N |-> N, P |-> P, bg |-> bg]
 FDChain(N, P, bg) == /\ ~job.active /\ bg # "hom"
                      /\ job' = [active |-> TRUE, kind |-> "fd", N |-> N, P |-> P, bg |-> bg, chain |-> <<10, 20, 40, 80>>]
-MomentCell(N, scale, mass) == /\ ~job.active
-                              /\ job' = [active |-> TRUE, kind |-> "moment", N |-> N, scale |-> scale, mass |-> mass]
+\* call history inside one wall solver: the finite-difference cross-check (EOM.getBoltzmannFiniteDifference, which works on a
+\* copy converted to the Cardinal basis) between two spectral solves of the same background must not change the second one
+FDHistory(M, N, P, bN) == /\ ~job.active
+                          /\ job' = [active |-> TRUE, kind |-> "fdhist", M |-> M, N |-> N, P |-> P, bN |-> bN]
+\* grid: the plain momentum grid, or the three-scale grid the manager hands to the solver (its own Jacobians)
+GridKinds == {"Grid", "Grid3Scales"}
+MomentCell(N, scale, mass, g) == /\ ~job.active
+                                 /\ job' = [active |-> TRUE, kind |-> "moment", N |-> N, scale |-> scale, mass |-> mass, grid |-> g]
 Done == job.active /\ job' = [active |-> FALSE]
 
 Next == \/ \E s \in Sizes, bM \in Bases, bN \in Bases, d \in Derivs, P \in 1..MaxP, bg \in BgKinds :
              Solve([bM |-> bM, bN |-> bN, deriv |-> d, M |-> s[1], N |-> s[2], P |-> P, bg |-> bg])
         \/ \E s \in Sizes, P \in 1..MaxP, bg \in BgKinds : BasisCell(s[1], s[2], P, bg)
         \/ \E N \in NSizes, P \in 1..MaxP, bg \in BgKinds : FDChain(N, P, bg)
-        \/ \E N \in NSizes, sc \in 0..3, ms \in 0..2 : MomentCell(N, sc, ms)
+        \/ \E s \in Sizes, P \in 1..MaxP, bN \in Bases : FDHistory(s[1], s[2], P, bN)
+        \/ \E N \in NSizes, sc \in 0..3, ms \in 0..2, g \in GridKinds : MomentCell(N, sc, ms, g)
         \/ Done
 Spec == Init /\ [][Next]_vars
 
